@@ -9,6 +9,8 @@ From CG Require Import Model.Check.
 From CG Require Import Model.Dfa.
 From CG Require Import Spec.Choice.
 From CGgen Require Import Consts.
+From CG Require Import Model.Glob.
+From CG Require Import Model.BashSem.
 (* add new Require lines above this line *)
 Require Import ExtrOcamlBasic ExtrOcamlString.
 Extraction Language OCaml.
@@ -23,5 +25,17 @@ Separate Extraction
   Dfa.mkall
   Dfa.trans_states
   Choice.spec
+  Glob.glob_match
+  Glob.printf_q
+  Glob.rm_longest_prefix
+  Glob.rm_shortest_prefix
+  Glob.rm_shortest_suffix
+  BashSem.run_from
+  BashSem.run
+  BashSem.subword_matches
+  BashSem.subword_complete
+  BashSem.filter_lines
+  BashSem.sort_desc
+  BashSem.assoc_of
   (* add new roots above this line *)
   Prelude.pow2.
